@@ -1,4 +1,5 @@
 import PgFdr.Proofs.C15
+import PgFdr.Proofs.C13
 
 /-!
 # C15 — merging rescoring results rewrites exactly the matched PSMs of evidence files
@@ -195,6 +196,205 @@ theorem psmid_raw_file_may_contain_underscores (raw ds a b : List Char) (n : Int
     simp [dropLast3]
   simp only [hdrop, join_splitOn]
 
+/-! ## Round 5a — the classification of evidence rows (seeded C15-h) -/
+
+/-- "match-between-runs rows" / "MS/MS row[s]", as the code tells them apart
+    (`parse_evidence_file_for_percolator_matching`): a row is a match-between-runs row iff its
+    scan-number cell is empty (or reads −1, the code's own encoding of "no scan"). -/
+theorem isMbrRow_iff (c : Cols) (row : Row) :
+    isMbrRow c row = true ↔ ∃ f, row[c.scan]? = some f ∧ (f = "" ∨ parseInt? f.toList = some (-1)) := by
+  unfold isMbrRow
+  cases h : row[c.scan]? with
+  | none => simp
+  | some f =>
+    simp only [Bool.or_eq_true, beq_iff_eq, Option.some.injEq, exists_eq_left']
+    constructor
+    · rintro (h | h)
+      · left; exact String.isEmpty_iff.mp h
+      · right; exact h
+    · rintro (h | h)
+      · left; exact String.isEmpty_iff.mpr h
+      · right; exact h
+
+/-- "every MS/MS row whose raw file, scan number and modified sequence …": what a parsed row hands to the
+    lookup is read off exactly these cells — the raw-file cell as it is, the modified-sequence cell
+    without its first and last character, and the scan-number cell as an integer; `scan = none`
+    exactly for the match-between-runs rows. -/
+theorem psm_key_is_the_rows_cells (c : Cols) (row : Row) (p : Psm) (h : psmOf c row = .ok p) :
+    row[c.raw]? = some p.raw ∧
+    (∃ m, row[c.modSeq]? = some m ∧ p.modSeq = slice 1 1 m) ∧
+    (p.scan = none ↔ isMbrRow c row = true) ∧
+    (∀ n, p.scan = some n → ∃ f, row[c.scan]? = some f ∧ parseInt? f.toList = some n) := by
+  obtain ⟨scanF, pepF, h1, h2, h3, h4, h5, _⟩ := psmOf_ok c row p h
+  refine ⟨h3, ⟨pepF, h4, h5⟩, psmOf_scan_none_iff c row p h, ?_⟩
+  intro n hn
+  rw [hn] at h2
+  exact ⟨scanF, h1, (scanOfCell_some _ _ h2).2.1⟩
+
+/-- the `Type` cell (MSMS, MULTI-MSMS, MULTI-SECPEP, MULTI-MATCH, MULTI-MATCH-MSMS, ISO-MSMS, empty,
+    anything) plays no part: replacing it changes neither whether the row parses, nor its
+    classification, nor its lookup key … -/
+theorem classification_ignores_type (hdr row : Row) (c : Cols) (hc : cols (hdr.map lower) = .ok c) (t : String) :
+    psmOf c (row.set c.idType t) = psmOf c row ∧ isMbrRow c (row.set c.idType t) = isMbrRow c row := by
+  refine ⟨psmOf_set_type _ c hc row t, ?_⟩
+  unfold isMbrRow
+  rw [List.getElem?_set_ne (cols_type_distinct _ c hc).2.2.2.1]
+
+/-- … and the row is kept, rewritten or dropped exactly as with any other `Type` cell, the output row
+    carrying the `Type` cell it came with. -/
+theorem row_rule_ignores_type (res : Results) (hdr row : Row) (c : Cols) (hc : cols (hdr.map lower) = .ok c)
+    (t : String) :
+    rowRule res hdr (row.set c.idType t) = (rowRule res hdr row).map (fun r => r.set c.idType t) := by
+  unfold rowRule
+  rw [hc]
+  simp only
+  rw [psmOf_set_type _ c hc row t]
+  cases hp : psmOf c row with
+  | error e => rfl
+  | ok p =>
+    obtain ⟨d1, d2, _⟩ := cols_type_distinct _ c hc
+    exact rule_set_other res c.score c.pep c.idType t row p d1 d2
+
+/-- "match-between-runs rows pass through unchanged, and MS/MS rows [are rewritten when matched, else]
+    dropped": with at least one result row, for every row of a file whose header resolves —
+    (1) a match-between-runs row (by the rule above) is written unchanged;
+    (2) a row that is NOT a match-between-runs row is either dropped or written with the score and
+        PEP cells set to the values of a result row with its (raw file, scan number, modified
+        sequence) — it never passes through on its own values;
+    (3) so a row is written unchanged iff it is a match-between-runs row, or the last result row with
+        its key carries, literally, the score and PEP cells the row already has. -/
+theorem passes_unchanged_iff_mbr (resultFiles : List (List ResultRow)) (parsed : List ParsedResult)
+    (hparse : resultFiles.flatten.mapM parseResultRow = .ok parsed) (hne : parsed ≠ [])
+    (hdr row : Row) (c : Cols) (hc : cols (hdr.map lower) = .ok c) (p : Psm) (hp : psmOf c row = .ok p) :
+    (isMbrRow c row = true → rowRule (parsed.foldl insertParsed []) hdr row = some row) ∧
+    (isMbrRow c row = false →
+      rowRule (parsed.foldl insertParsed []) hdr row = none ∨
+      ∃ q ∈ parsed, q.raw = p.raw ∧ some q.scan = p.scan ∧ q.modSeq = p.modSeq ∧
+        rowRule (parsed.foldl insertParsed []) hdr row = some ((row.set c.score q.val.1).set c.pep q.val.2)) ∧
+    (rowRule (parsed.foldl insertParsed []) hdr row = some row ↔
+      isMbrRow c row = true ∨
+      ∃ q scan, p.scan = some scan ∧
+        parsed.reverse.find? (fun q => decide (q.raw = p.raw ∧ (q.scan, q.modSeq) = (scan, p.modSeq))) = some q ∧
+        (row.set c.score q.val.1).set c.pep q.val.2 = row) := by
+  have hrr : rowRule (parsed.foldl insertParsed []) hdr row = rule (parsed.foldl insertParsed []) c.score c.pep row p := by
+    unfold rowRule; rw [hc]; simp only [hp]
+  have hiff := psmOf_scan_none_iff c row p hp
+  have hkey := (key_is_scan_and_sequence resultFiles parsed hparse).2
+  rw [hrr]
+  cases hs : p.scan with
+  | none =>
+    have hm : isMbrRow c row = true := hiff.mp hs
+    have hu := mbr_unchanged (parsed.foldl insertParsed []) c.score c.pep row p hs
+    refine ⟨fun _ => hu, ?_, ?_⟩
+    · intro hf; rw [hm] at hf; cases hf
+    · exact ⟨fun _ => Or.inl hm, fun _ => hu⟩
+  | some scan =>
+    have hm : isMbrRow c row = false := by
+      cases hb : isMbrRow c row with
+      | false => rfl
+      | true => rw [hiff.mpr hb] at hs; cases hs
+    have hk := hkey c.score c.pep row p scan hne hs
+    rw [hk]
+    refine ⟨?_, fun _ => ?_, ?_, ?_⟩
+    · intro ht; rw [hm] at ht; cases ht
+    · cases hf : parsed.reverse.find? (fun q => decide (q.raw = p.raw ∧ (q.scan, q.modSeq) = (scan, p.modSeq))) with
+      | none => left; rfl
+      | some q =>
+        right
+        have hmem : q ∈ parsed := List.mem_reverse.mp (List.mem_of_find?_eq_some hf)
+        have hq := List.find?_some hf
+        simp only [Prod.mk.injEq, decide_eq_true_eq] at hq
+        exact ⟨q, hmem, hq.1, by rw [hq.2.1], hq.2.2, rfl⟩
+    · intro h
+      right
+      cases hf : parsed.reverse.find? (fun q => decide (q.raw = p.raw ∧ (q.scan, q.modSeq) = (scan, p.modSeq))) with
+      | none => rw [hf] at h; cases h
+      | some q =>
+        rw [hf] at h
+        exact ⟨q, scan, rfl, hf, by simpa using h⟩
+    · rintro (h | ⟨q, scan', hs', hf, heq⟩)
+      · rw [hm] at h; cases h
+      · cases hs'
+        rw [hf]; simp [heq]
+
+/-! ## Round 5b — the csv layer of the evidence files is inside the model (seeded C15-g)
+
+"No other field is altered" speaks about FIELDS — the cell values a reader of the tab-separated
+dialect sees — not about bytes: `get_tsv_writer` re-quotes with `QUOTE_MINIMAL` and ends every
+record with "\r\n", so `5"-nucleotidase` (as MaxQuant writes it) comes out as `"5""-nucleotidase"`
+and a file with "\n" line ends comes out with "\r\n"; the cell values are the same. -/
+
+/-- the reader/writer pair of `parsers/tsv.py` (C13's `csv_roundtrip`, reused): reading what the
+    writer wrote gives back every cell value — quotes, tabs, line breaks, commas, blanks, empty
+    cells, any character — for ALL records. -/
+theorem tsv_write_then_read (rows : List Row) : readTsv (writeTsv rows) = rows :=
+  C13.parseText_formatRows rows
+
+/-- "The rescoring merge writes the header of the first evidence file followed by the rows of all
+    evidence files in order … No other field is altered", from file text to file text: the cell
+    values a reader of the dialect finds in the output file are exactly the first file's header cells
+    followed by, file by file and row by row, what the row rule makes of the cell values read from
+    the input files (and by `only_score_and_pep_columns_change` the rule touches no cell outside the
+    score and PEP columns). -/
+theorem mergeText_cells (rawResults : List (List Row)) (texts : List (List Char)) (outText : List Char)
+    (h : mergeTextRaw rawResults texts = .ok outText) :
+    ∃ rfs res, rawResults.mapM resultRowsOf = .ok rfs ∧ buildResults rfs = .ok res ∧
+      (∀ t ∈ texts, FileOk (readTsv t)) ∧
+      readTsv outText =
+        (texts.head?.map (fun t => (readTsv t).headD [])).toList ++
+        texts.flatMap (fun t => (readTsv t).tail.filterMap (rowRule res ((readTsv t).headD []))) := by
+  unfold mergeTextRaw at h
+  obtain ⟨out, hm, h⟩ := bind_ok _ _ _ h
+  simp only [pure, Except.pure, Except.ok.injEq] at h
+  subst h
+  obtain ⟨rfs, hr, hmerge⟩ := mergeRaw_spec rawResults _ out hm
+  obtain ⟨res, hres, hall, hout⟩ := merge_spec rfs _ out hmerge
+  refine ⟨rfs, res, hr, hres, ?_, ?_⟩
+  · intro t ht
+    exact hall _ (List.mem_map.mpr ⟨t, ht, rfl⟩)
+  · rw [tsv_write_then_read, hout, List.flatMap_map]
+    cases texts <;> rfl
+
+/-- "without rescoring files the evidence files are simply concatenated", at the level of the files:
+    the output reads as the header cells of the first file followed by the data rows of all files,
+    every cell value as it was read. -/
+theorem mergeText_without_results_is_concat (texts : List (List Char)) (outText : List Char)
+    (h : mergeTextRaw [] texts = .ok outText) :
+    readTsv outText =
+      (texts.head?.map (fun t => (readTsv t).headD [])).toList ++ texts.flatMap (fun t => (readTsv t).tail) := by
+  unfold mergeTextRaw at h
+  obtain ⟨out, hm, h⟩ := bind_ok _ _ _ h
+  simp only [pure, Except.pure, Except.ok.injEq] at h
+  subst h
+  have hmerge : merge [] (texts.map readTsv) = .ok out := by
+    simpa [mergeRaw, bind, Except.bind, pure, Except.pure] using hm
+  rw [tsv_write_then_read, no_results_is_concat [] _ out rfl hmerge, List.flatMap_map]
+  cases texts <;> rfl
+
+/-- which byte-level differences there can be: none for a file the package's own writer produced —
+    concatenating such a file alone reproduces it byte for byte (so all differences between an input
+    file and its part of the output come from quoting and line ends the writer would not have chosen). -/
+theorem own_output_reproduced (rows : List Row) (outText : List Char)
+    (h : mergeTextRaw [] [writeTsv rows] = .ok outText) : outText = writeTsv rows := by
+  have hc := mergeText_without_results_is_concat _ _ h
+  unfold mergeTextRaw at h
+  obtain ⟨out, hm, h⟩ := bind_ok _ _ _ h
+  simp only [pure, Except.pure, Except.ok.injEq] at h
+  subst h
+  rw [tsv_write_then_read] at hc
+  simp only [List.head?_cons, Option.map_some, Option.toList_some, List.flatMap_cons, List.flatMap_nil,
+    List.append_nil, tsv_write_then_read] at hc
+  have hne : rows ≠ [] := by
+    intro hnil
+    subst hnil
+    simp [mergeRaw, merge, buildResults, mergeAux, updateSingle, writeTsv, readTsv, C13.formatRows, C13.parseText,
+      C13.finish, C13.PS.init, bind, Except.bind, pure, Except.pure] at hm
+  cases rows with
+  | nil => exact absurd rfl hne
+  | cons r rs =>
+    simp only [List.headD_cons, List.tail_cons, List.cons_append, List.nil_append] at hc
+    rw [hc]
+
 /-! ### Non-vacuity: a concrete merge with one rewritten, one MBR, one unmatched and one
     raw-file-absent row; the raw file name contains underscores, the scan numbers are spelled
     differently on the two sides, and a later result row overwrites an earlier one. -/
@@ -217,5 +417,35 @@ example : merge exResults exEvidence = .ok
 example : merge [] exEvidence = .ok (exHdr :: exEvidence.flatMap List.tail) := by decide +kernel
 
 example : parseInt? "007".toList = some 7 := by decide +kernel
+
+/-! ### Non-vacuity of rounds 5a / 5b: from file text to file text.  A matched row of `Type`
+    MULTI-MATCH-MSMS (it has a scan number: rewritten) whose protein-name cell is `5"-nucleotidase`
+    written the MaxQuant way (unquoted; re-quoted on output, same cell value); a row WITHOUT scan
+    number of `Type` MSMS (match-between-runs by the rule: unchanged) whose cell starts with a quote;
+    an unmatched row of `Type` MULTI-MATCH WITH a scan number (dropped); "\n" line ends in, "\r\n" out. -/
+
+private def exHdrLine : String :=
+  "Modified sequence\tRaw file\tMS/MS scan number\tScore\tPEP\tType\tReverse\tPotential contaminant\tProtein names"
+private def exTextIn : List Char :=
+  (exHdrLine ++ "\n_AAM(ox)K_\traw_2_b\t007\t10.5\t0.2\tMULTI-MATCH-MSMS\t\t\t5\"-nucleotidase\n"
+    ++ "_AAAK_\traw_2_b\t\tNaN\tNaN\tMSMS\t\t\t\"\"\"quoted\"\" start, ; \"\n"
+    ++ "_CCCK_\traw_2_b\t7\t50.0\t0.01\tMULTI-MATCH\t\t\t a b \n").toList
+private def exRawResults : List (List Row) :=
+  [[["PSMId", "score", "q-value", "posterior_error_prob", "peptide", "proteinIds"],
+    ["raw_2_b_7_2_1", "2.5", "0.01", "0.001", "-.AAM[16]K.-", "P1"]]]
+
+example : (mergeTextRaw exRawResults [exTextIn]).toOption.map String.ofList = some
+    (exHdrLine ++ "\r\n_AAM(ox)K_\traw_2_b\t007\t2.5\t0.001\tMULTI-MATCH-MSMS\t\t\t\"5\"\"-nucleotidase\"\r\n"
+      ++ "_AAAK_\traw_2_b\t\tNaN\tNaN\tMSMS\t\t\t\"\"\"quoted\"\" start, ; \"\r\n") := by decide +kernel
+
+example : (readTsv exTextIn).map (fun r => r.getD 8 "") =
+    ["Protein names", "5\"-nucleotidase", "\"quoted\" start, ; ", " a b "] := by decide +kernel
+
+/-- the hypotheses of `passes_unchanged_iff_mbr` / `classification_ignores_type` are met by these rows:
+    the header resolves (`Type` is column 5), the rows parse, the first is an MS/MS row with scan 7,
+    the second a match-between-runs row -/
+example : ((cols ((readTsv exTextIn).headD [] |>.map lower)).toOption.map fun c =>
+      (c.idType, (readTsv exTextIn).tail.map fun r => ((psmOf c r).toOption.map (·.scan), isMbrRow c r))) =
+    some (5, [(some (some 7), false), (some none, true), (some (some 7), false)]) := by decide +kernel
 
 end PgFdr.C15
